@@ -357,7 +357,7 @@ def _exec_assembly_body(r, vcls, mclss, vrec, mrecs, inputs, wr, s, o, k, cutter
     ev = {"ev": "Assemble", "enz": {"site": dna.enc(s), "off": o, "ovh": k},
           "vrole": classes.role_of(vcls), "generic": ("vcls" not in r and "mcls" not in r) or bool(r.get("assume_generic")),
           "vec": proj_in[0], "mods": proj_in[1:], "args": {"id": "assembly" if r.get("id") is None else r["id"], "name": "assembly" if r.get("name") is None else r["name"]},
-          "out": out, "fault": r.get("fault") or {"at": 0, "exc": ""},
+          "out": out, "fault": r.get("fault") or {"at": 0, "exc": ""}, "vloose": bool(r.get("vloose")),
           "before": before, "after": after,
           # the citation qualifiers of the inputs as written (C10: "the inputs' own citation indices are unchanged afterwards")
           "cit_before": [[f["raw"] for f in p_["feats"]] for p_ in proj_in[:len(inputs)]], "cit_after": cit_after,
